@@ -42,7 +42,7 @@ LEXEMES = (
     + list("<>|{};[],*:")
     + ["\n", "\n", " ", " ", "\t", "//", "/*", "*/", "q", "g", "x", "q[0]", "a.b", ".m", "0", "1", "-2", "3.5", "1e5", ".5", "'01'", "prepare_all", "measure_all"]
 )
-_ABSOLUTE = {"vlib.pulses.moda", "vlib.pulses.modb", "vlib.pulses.pkgc", "vlib.pulses.pkgd", "vlib.pulses.alt.moda"}
+_ABSOLUTE = {"vlib.pulses.full", "vlib.pulses.moda", "vlib.pulses.modb", "vlib.pulses.pkgc", "vlib.pulses.pkgd", "vlib.pulses.alt.moda"}
 # pulse modules that exist, by the import directory the entry point puts in force: single
 # files, a package whose __init__ holds jaqal_gates, a package with a jaqal_gates submodule
 # (the qscout layout), a module inside a sub-package (dotted relative name)
@@ -183,6 +183,9 @@ def _string_case(ch):
                 "from vlib.pulses.moda usepulses *\nregister q[2]\nmacro m a b { GP a }\nsubcircuit { m q[0] }\n",
                 "from vlib.pulses.moda usepulses *\nregister q[2]\nmacro m a { GP a a }\nsubcircuit { m q[0] }\n",
                 "from vlib.pulses.modb usepulses *\nregister q[2]\nsubcircuit { GP q[0] q[0] }\n",
+                "from vlib.pulses.full usepulses *\nregister q[2]\nsubcircuit { U2 q[0] q[0] }\n",
+                "from vlib.pulses.full usepulses *\nregister q[2]\nmap a q[1]\nmacro m x y { U2 x y }\nsubcircuit { m q[1] a }\n",
+                "from vlib.pulses.full usepulses *\nregister q[3]\nsubcircuit { U3 q[0] q[2] q[0] }\n",
                 "from vlib.pulses.modb usepulses *\nregister q[2]\nsubcircuit { < XB q[0] | XB q[0] > }\n",
             ]
         )
